@@ -136,6 +136,9 @@ int vf_pthread_join(pthread_t t, void **ret) {
 
 void vf_yield(void) { sched_yield(); }
 
+int vf_wait_release(const void *lock) { (void) lock; return -1; }
+void vf_cancel_release_waits(void) {}
+
 int vf_usleep(unsigned int us) {
 	unsigned real = us / VF_SCALE;
 	if (real == 0) real = 1;
